@@ -19,6 +19,8 @@ pub mod threadpool;
 pub mod analyzers_v2;
 
 mod wire;
+mod gen_kinds;
+mod dump;
 mod modes;
 
 use std::io::{BufRead, Write};
